@@ -14,8 +14,10 @@
 #                   throw                                                           -> ctx.violation
 #
 # Work is cut into tasks (<= ~300k cases); every task is run by a forked worker that generates its
-# cases, writes one case file, runs both programs on it and compares the three columns, so the
-# Python side scales with the cores as well.  Results are merged in task order: deterministic.
+# cases, writes one case file, runs both programs on it (compact output mode -c: one character per
+# case and column) and compares the three columns, so the Python side scales with the cores as
+# well.  Results are merged in task order: deterministic.  thorough additionally runs the harness
+# under ASan+UBSan (exact-size buffers) on the short exhaustive strings and all list families.
 import itertools
 import multiprocessing
 import os
@@ -712,7 +714,7 @@ def run(ctx):
     phase["table"] = round(time.time() - t0, 1)
     # (b) proofs
     t0 = time.time()
-    ctx.proofs("Properties_C14")
+    rep = ctx.proofs("Properties_C14")
     phase["proofs"] = round(time.time() - t0, 1)
     t0 = time.time()
     # (c) programs
@@ -815,6 +817,17 @@ def run(ctx):
             sanitizer_pass(ctx, wd, san_cases, plain)
             phase["sanitizer"] = round(time.time() - t1, 1)
     report_violations(ctx, mism, mism_count)
+    # (d'') thorough: independent re-check of the compiled proofs by the stand-alone checker (DESIGN 3.3)
+    if ctx.tier == "thorough" and rep.build_ok:
+        t1 = time.time()
+        with vlib.Lock("coq"):
+            rc, out = vlib.sh(["timeout", "900", "coqchk", "-silent", "-o", "-Q", ".", "PegtlV", "PegtlV.Properties_C14"], cwd=vlib.COQ, timeout=960)
+        flat = " ".join(out.split())
+        if rc != 0 or "Axioms: <none>" not in flat:
+            ctx.diff("coqchk -o PegtlV.Properties_C14 did not report an axiom-free, fully checked context", flat[-400:])
+        else:
+            ctx.note("coqchk -o PegtlV.Properties_C14: Axioms: <none>, no type-in-type, no unsafe fixpoints, no assumed positivity")
+        phase["coqchk"] = round(time.time() - t1, 1)
     # (e) evidence
     test_files = {}
     for (name, data), (o, m, i) in zip(files, file_lines):
@@ -854,7 +867,7 @@ def run(ctx):
               alphabet_full=[show(s) for s in FULL], alphabet_reduced=[show(s) for s in REDUCED], alphabet_mid=[show(s) for s in MID],
               oracle_violations_by_kind=dict(mism_count), phase_seconds=phase)
     ctx.assumptions = [
-        "the theorems are about Engine.run on gen/Json_gen.json_table; the tie to contrib/json.hpp is the table dumped by the compiler on every run plus the three-column correspondence on the explored inputs",
+        "the theorems are about Engine.eval on gen/Json_gen.json_table for every configuration without veto/throwing actions and without raise-on-failure control (ExactTop.void_cfg), every apply/rewind mode and start position, inputs being byte lists (every element < 256); the tie to contrib/json.hpp is the table dumped by the compiler on every run plus the three-column correspondence on the explored inputs",
         "the oracle is Rfc8259.rfc8259_b (extracted), proved equivalent to the inductive transcription of the RFC 8259 ABNF with RFC 3629 UTF-8 for unescaped characters; inputs are byte lists",
         "parse() is called without actions, with the default control, on a memory_input<> (tracking_mode::eager, eol::lf_crlf)",
     ]
